@@ -1024,5 +1024,7 @@ def run(ctx):
     from . import c20
     from .common import shared
 
+    from . import c11 as _c11
+    shared(ctx, "C01.b", _c11.rule_axis_reduction, why="Image.slice and reduce_axis build their result through AxisReduction: the parent's origin must stay untouched and the reduced image must sit where the table says, for either way of addressing the axis")
     T_i, _, _ = c20.extract_tables(ctx)
     shared(ctx, "C01.a", c20.rule_b, T_i, why="the documented orientation is fixed independently by the array-layout helpers; a self-consistent table with another orientation must disagree with them")
